@@ -29,7 +29,8 @@ Definition var_eqb (a b : var) : bool :=
   String.eqb (vname a) (vname b) && Bool.eqb (vdummy a) (vdummy b).
 
 (* ------------------------------------------------------------------ *)
-(* bf.go:70-251  the AST: trueConst, falseConst, variable, lit, not, and, or *)
+(* bf.go:70-255, 327  the AST: trueConst, falseConst, variable, lit, not,
+   and, or, unique (an exactly-one group, kept as a node until nnf()) *)
 
 Inductive form :=
 | FVar (v : var)
@@ -38,7 +39,13 @@ Inductive form :=
 | FAnd (l : list form)
 | FOr (l : list form)
 | FTrue
-| FFalse.
+| FFalse
+| FUnique (vs : list var).
+
+Fixpoint count_true (l : list bool) : nat :=
+  match l with [] => O | b :: r => ((if b then 1 else 0) + count_true r)%nat end.
+
+Definition exactly_one (l : list bool) : bool := (count_true l =? 1)%nat.
 
 (* Standard semantics (the specification; empty And = true, empty Or = false). *)
 Fixpoint eval (env : var -> bool) (f : form) : bool :=
@@ -50,9 +57,10 @@ Fixpoint eval (env : var -> bool) (f : form) : bool :=
   | FOr l => existsb (eval env) l
   | FTrue => true
   | FFalse => false
+  | FUnique vs => exactly_one (map env vs)
   end.
 
-(* bf.go:77,87,115-121,139-145,190-192,232-244,284-294  Eval on a
+(* bf.go:77,87,115-121,139-145,194-196,236-248,288-298  Eval on a
    map[string]bool.  The lookup is by NAME only (the dummy flag is ignored);
    a missing binding panics: None.  Go evaluates every sub-formula (no short
    cut), so a panic anywhere is a panic of the whole. *)
@@ -77,33 +85,38 @@ Fixpoint eval_go (m : list (string * bool)) (f : form) : option bool :=
                               | _, _ => None end) l (Some false)
   | FTrue => Some true
   | FFalse => Some false
+  | FUnique vs =>    (* bf.go:338-346: counts the true variables *)
+      option_map exactly_one
+        (fold_right (fun v acc => match assoc_str m (vname v), acc with
+                                  | Some b, Some l => Some (b :: l)
+                                  | _, _ => None end) (Some []) vs)
   end.
 
 (* ------------------------------------------------------------------ *)
-(* bf.go:296-309  Implies, Eq, Xor                                      *)
+(* bf.go:300-313  Implies, Eq, Xor                                      *)
 
 Definition f_implies (f1 f2 : form) : form := FOr [FNot f1; f2].
 Definition f_eq (f1 f2 : form) : form := FAnd [FOr [FNot f1; f2]; FOr [f1; FNot f2]].
 Definition f_xor (f1 f2 : form) : form := FAnd [FOr [FNot f1; FNot f2]; FOr [f1; f2]].
 
 (* ------------------------------------------------------------------ *)
-(* bf.go:311-382  Unique, uniqueSmall, uniqueRec                        *)
+(* bf.go:315-409  Unique, uniqueSmall, uniqueRec                        *)
 
 (* "%d" of a non-negative int *)
 Definition dec (n : N) : string := NilEmpty.string_of_uint (N.to_uint n).
 
-(* bf.go:330-334  for i < j: Or(Not(v_i), Not(v_j)), i outer, j inner *)
+(* bf.go:357-361  for i < j: Or(Not(v_i), Not(v_j)), i outer, j inner *)
 Fixpoint pairs_neg (l : list var) : list form :=
   match l with
   | [] => []
   | v :: r => map (fun w => FOr [FNot (FVar v); FNot (FVar w)]) r ++ pairs_neg r
   end.
 
-(* bf.go:323-336 *)
+(* bf.go:350-363 *)
 Definition unique_small (vars : list var) : form :=
   FAnd (FOr (map FVar vars) :: pairs_neg vars).
 
-(* bf.go:343-344,359  with k = floor(sqrt n) (exact integer square root):
+(* bf.go:370-371,386  with k = floor(sqrt n) (exact integer square root):
      int(sqrt(n) + 0.5) = k  iff sqrt n < k + 1/2 iff n <= k*k + k ;
      int(ceil(sqrt n))  = k  iff n = k*k.
    Checked against the float64 code for 5 <= n <= 400 (Properties/C12.v,
@@ -126,24 +139,24 @@ Fixpoint select {A} (p : nat -> bool) (i : nat) (l : list A) : list A :=
 Definition grid_name (kind : string) (i : nat) (full : string) : string :=
   (kind ++ dec (N.of_nat i) ++ "-" ++ full)%string.
 
-(* bf.go:355-358 / 361-365 *)
+(* bf.go:382-385 / 388-392 *)
 Definition grid_vars (kind : string) (count : nat) (full : string) : list var :=
   map (fun i => dummy_var (grid_name kind i full)) (seq 0 count).
 
-(* bf.go:367-370  linesF / colsF *)
+(* bf.go:394-397  linesF / colsF *)
 Definition lines_of (vars : list var) (nbl nbc : nat) : list (list var) :=
   map (fun i => select (fun p => (p / nbc =? i)%nat) 0 vars) (seq 0 nbl).
 Definition cols_of (vars : list var) (nbc : nat) : list (list var) :=
   map (fun j => select (fun p => (p mod nbc =? j)%nat) 0 vars) (seq 0 nbc).
 
-(* bf.go:371-376  Eq(lines[i], Or(linesF[i]...)) *)
+(* bf.go:398-403  Eq(lines[i], Or(linesF[i]...)) *)
 Fixpoint grid_defs (ds : list var) (members : list (list var)) : list form :=
   match ds, members with
   | d :: ds', l :: members' => f_eq (FVar d) (FOr (map FVar l)) :: grid_defs ds' members'
   | _, _ => []
   end.
 
-(* strconv.Quote (bf.go:349), byte by byte.  Exact for every byte below 0x80:
+(* strconv.Quote (bf.go:376), byte by byte.  Exact for every byte below 0x80:
    the double quote and the backslash are escaped with a backslash, the control
    characters print as \a \b \f \n \r \t \v or \xhh (lower-case hex; also 0x7f),
    the other printable ASCII characters are kept.  Bytes >= 0x80 are kept as
@@ -186,7 +199,7 @@ Definition quote (s : string) : string := String ch_dq (qbody s ++ String ch_dq 
 Definition string_of_bytes (l : list nat) : string :=
   fold_right (fun n s => String (ascii_of_nat n) s) EmptyString l.
 
-(* bf.go:347-354  fullName: the quoted names, a nested group of dummies being
+(* bf.go:374-381  fullName: the quoted names, a nested group of dummies being
    marked with a "d", joined with "-" *)
 Definition qname (v : var) : string :=
   if vdummy v then String "d" (quote (vname v)) else quote (vname v).
@@ -194,7 +207,7 @@ Definition qname (v : var) : string :=
 Definition full_name (vars : list var) : string :=
   String.concat "-" (map qname vars).
 
-(* bf.go:338-382.  The recursion is on lists that get strictly shorter
+(* bf.go:365-409.  The recursion is on lists that get strictly shorter
    (nbLines, nbCols < nbVars when nbVars > 4): fuel = number of variables is
    enough (Proofs/Bf.v); FFalse is the out-of-fuel value. *)
 Fixpoint unique_rec (fuel : nat) (vars : list var) : form :=
@@ -213,9 +226,8 @@ Fixpoint unique_rec (fuel : nat) (vars : list var) : form :=
           ++ [unique_rec k lines; unique_rec k cols])
   end.
 
-(* bf.go:313-319 *)
-Definition f_unique (names : list string) : form :=
-  unique_rec (List.length names) (map pb_var names).
+(* bf.go:317-323: Unique(names...) = unique(pbVar(names)...) *)
+Definition f_unique (names : list string) : form := FUnique (map pb_var names).
 
 (* ------------------------------------------------------------------ *)
 (* The public API as a syntax (what a user of the package can build), its
@@ -233,11 +245,6 @@ Inductive sform :=
 | SEq (a b : sform)
 | SXor (a b : sform)
 | SUnique (names : list string).
-
-Fixpoint count_true (l : list bool) : nat :=
-  match l with [] => O | b :: r => ((if b then 1 else 0) + count_true r)%nat end.
-
-Definition exactly_one (l : list bool) : bool := (count_true l =? 1)%nat.
 
 Fixpoint seval (env : string -> bool) (f : sform) : bool :=
   match f with
@@ -268,10 +275,10 @@ Fixpoint desugar (f : sform) : form :=
   end.
 
 (* ------------------------------------------------------------------ *)
-(* bf.go:75,85,107-109,128-130,154-184,201-222,253-274  nnf()           *)
+(* bf.go:75,85,107-109,128-130,154-188,205-226,257-278  nnf()           *)
 
-(* bf.go:202-214: the loop of and.nnf over the already normalised subs.
-   None = "return False" (line 210). *)
+(* bf.go:206-218: the loop of and.nnf over the already normalised subs.
+   None = "return False" (line 214). *)
 Fixpoint and_collect (l : list form) : option (list form) :=
   match l with
   | [] => Some []
@@ -284,7 +291,7 @@ Fixpoint and_collect (l : list form) : option (list form) :=
     end
   end.
 
-(* bf.go:215-221 *)
+(* bf.go:219-225 *)
 Definition and_fold (l : list form) : form :=
   match and_collect l with
   | None => FFalse
@@ -293,7 +300,7 @@ Definition and_fold (l : list form) : form :=
   | Some res => FAnd res
   end.
 
-(* bf.go:254-266 *)
+(* bf.go:258-270 *)
 Fixpoint or_collect (l : list form) : option (list form) :=
   match l with
   | [] => Some []
@@ -306,7 +313,7 @@ Fixpoint or_collect (l : list form) : option (list form) :=
     end
   end.
 
-(* bf.go:267-273 *)
+(* bf.go:271-277 *)
 Definition or_fold (l : list form) : form :=
   match or_collect l with
   | None => FTrue
@@ -315,27 +322,43 @@ Definition or_fold (l : list form) : form :=
   | Some res => FOr res
   end.
 
-(* [nnfp false f] is f.nnf(); [nnfp true f] is not{f}.nnf() (bf.go:154-184).
+(* [nnfp false f] is f.nnf(); [nnfp true f] is not{f}.nnf() (bf.go:154-188).
    In the two De Morgan cases Go builds or(subs) / and(subs) from the
    normalised negated subs and calls .nnf() on it, which normalises every
    sub a second time: that second pass is the identity (Proofs/Bf.v,
-   [nnf_idem]), so the fold is applied directly. *)
-Fixpoint nnfp (neg : bool) (f : form) : form :=
+   [nnf_idem]), so the fold is applied directly.
+   [uq neg vs] is the translation of an exactly-one group. *)
+Fixpoint nnfp_gen (uq : bool -> list var -> form) (neg : bool) (f : form) : form :=
   match f with
   | FVar v => FLit v neg
   | FLit v s => FLit v (if neg then negb s else s)
-  | FNot g => nnfp (negb neg) g
-  | FAnd l => if neg then or_fold (map (nnfp true) l) else and_fold (map (nnfp false) l)
-  | FOr l => if neg then and_fold (map (nnfp true) l) else or_fold (map (nnfp false) l)
+  | FNot g => nnfp_gen uq (negb neg) g
+  | FAnd l => if neg then or_fold (map (nnfp_gen uq true) l) else and_fold (map (nnfp_gen uq false) l)
+  | FOr l => if neg then and_fold (map (nnfp_gen uq true) l) else or_fold (map (nnfp_gen uq false) l)
   | FTrue => if neg then FFalse else FTrue
   | FFalse => if neg then FTrue else FFalse
+  | FUnique vs => uq neg vs
   end.
+
+(* nnf() on the formulas built by uniqueSmall / uniqueRec, which contain no
+   unique node (Proofs/Bf.v, [no_unique_rec]): the last case is never reached. *)
+Definition nnfp0 : bool -> form -> form := nnfp_gen (fun _ _ => FFalse).
+
+(* bf.go:330-332: unique.nnf() = uniqueRec(u...).nnf(), with line/col dummies
+   when the group has more than 4 variables;
+   bf.go:177-180: not{unique}.nnf() = not{uniqueSmall(u...)}.nnf(), pairwise,
+   without dummies, whatever the size. *)
+Definition uq_go (neg : bool) (vs : list var) : form :=
+  if neg then nnfp0 true (unique_small vs)
+  else nnfp0 false (unique_rec (List.length vs) vs).
+
+Definition nnfp : bool -> form -> form := nnfp_gen uq_go.
 
 Definition nnf (f : form) : form := nnfp false f.
 
 (* The literal mirror of the De Morgan cases, with the second pass, on fuel
-   (None = out of fuel).  Proofs/Bf.v, [nnf_go_nnf]: nnf_go k f = Some (nnf f)
-   as soon as k > 2 * depth f. *)
+   (None = out of fuel).  Proofs/Bf.v, [nnf_go_nnf]: for a formula without
+   unique node, nnf_go k f = Some (nnf f) as soon as k > 2 * depth f. *)
 Fixpoint nnf_go (fuel : nat) (f : form) : option form :=
   match fuel with
   | O => None
@@ -351,6 +374,7 @@ Fixpoint nnf_go (fuel : nat) (f : form) : option form :=
     | FFalse => Some FFalse
     | FAnd l => option_map and_fold (all l)
     | FOr l => option_map or_fold (all l)
+    | FUnique vs => nnf_go k (unique_rec (List.length vs) vs)
     | FNot g =>
       match g with
       | FVar v => Some (FLit v true)
@@ -364,6 +388,7 @@ Fixpoint nnf_go (fuel : nat) (f : form) : option form :=
                  | None => None end
       | FTrue => Some FFalse
       | FFalse => Some FTrue
+      | FUnique vs => nnf_go k (FNot (unique_small vs))
       end
     end
   end.
@@ -387,7 +412,7 @@ Definition is_nnf (f : form) : bool :=
   match f with FTrue | FFalse => true | _ => nnf_sub KTop f end.
 
 (* ------------------------------------------------------------------ *)
-(* bf.go:384-410  vars, litValue, dummy                                 *)
+(* bf.go:411-437  vars, litValue, dummy                                 *)
 
 Definition table := list (var * Z).
 
@@ -408,7 +433,7 @@ Record vars := Vars { v_all : table; v_pb : table }.
 
 Definition tbl_len (t : table) : Z := Z.of_nat (List.length t).
 
-(* bf.go:391-402 *)
+(* bf.go:418-429 *)
 Definition lit_value (vs : vars) (v : var) (signed : bool) : Z * vars :=
   match tbl_get (v_all vs) v with
   | Some val => ((if signed then - val else val), vs)
@@ -424,14 +449,14 @@ Definition tseitin_var (val : Z) : var :=
 (* v is named like a variable of vars.dummy(): dummy flag and "dummy-..." *)
 Definition tseitin_name (v : var) : bool := vdummy v && prefix "dummy-" (vname v).
 
-(* bf.go:405-409.  The key is never already in the map (Proofs/Bf.v,
+(* bf.go:432-436.  The key is never already in the map (Proofs/Bf.v,
    [new_dummy_spec]), so the assignment is an insertion. *)
 Definition new_dummy (vs : vars) : Z * vars :=
   let val := tbl_len (v_all vs) + 1 in
   (val, Vars (tbl_set (v_all vs) (tseitin_var val) val) (v_pb vs)).
 
 (* ------------------------------------------------------------------ *)
-(* bf.go:449-489  cnfRec                                                *)
+(* bf.go:476-516  cnfRec                                                *)
 
 (* "for _, sub := range l { res = append(res, step(sub, vars)...) }" *)
 Definition thread {A} (step : A -> vars -> list clause * vars)
@@ -445,12 +470,12 @@ Definition thread {A} (step : A -> vars -> list clause * vars)
       (c1 ++ c2, vs2)
     end.
 
-(* bf.go:471-473 *)
+(* bf.go:498-500 *)
 Definition guard (d : Z) (cs : list clause) : list clause :=
   map (fun c => c ++ [- d]) cs.
 
-(* bf.go:462-479: the loop of the "or" case; returns (res, lits, vars).
-   A sub that is neither a lit nor an and is a panic (line 477). *)
+(* bf.go:489-506: the loop of the "or" case; returns (res, lits, vars).
+   A sub that is neither a lit nor an and is a panic (line 504). *)
 Definition or_thread (rec : form -> vars -> list clause * vars)
   : list form -> vars -> list clause * list lit * vars :=
   fix go (l : list form) (vs : vars) : list clause * list lit * vars :=
@@ -493,6 +518,7 @@ Fixpoint fvars (f : form) : list var :=
   | FOr l => flat_map fvars l
   | FTrue => []
   | FFalse => []
+  | FUnique vs => vs
   end.
 
 (* no variable of f can be mistaken for a dummy-k variable (always true of
@@ -515,7 +541,7 @@ Fixpoint cnf_ok (f : form) : bool :=
   | _ => false
   end.
 
-(* bf.go:413-416, 439-443 *)
+(* bf.go:440-443, 466-470 *)
 Record bfcnf := BfCnf { c_vars : vars; c_clauses : list clause }.
 
 Definition as_cnf (f : form) : bfcnf :=
@@ -530,7 +556,7 @@ Definition env_of (c : bfcnf) : model -> (var -> bool) -> var -> bool :=
   env_tbl (v_all (c_vars c)).
 
 (* ------------------------------------------------------------------ *)
-(* bf.go:24-26, 422-436  Solve / cnf.solve.
+(* bf.go:24-26, 449-463  Solve / cnf.solve.
    solver.ParseSlice derives the number of variables from the clauses; it is
    len(vars.all) because every variable of the table occurs in a clause
    (Proofs/Bf.v, [as_cnf_used]).  The Go result is a map name -> bool filled
@@ -586,7 +612,7 @@ Definition dimacs_export (f : form) : dimacs :=
 (* Side conditions on the public-API formulas used by the theorems.     *)
 
 (* The definitions "dummy = Or(members)" that uniqueRec generates
-   (bf.go:371-376), in the order of the recursion. *)
+   (bf.go:398-403), in the order of the recursion. *)
 Fixpoint unique_defs (fuel : nat) (vars : list var) : list (var * list var) :=
   let n := List.length vars in
   if (n <=? 4)%nat then [] else
@@ -602,16 +628,28 @@ Fixpoint unique_defs (fuel : nat) (vars : list var) : list (var * list var) :=
     ++ unique_defs k lines ++ unique_defs k cols
   end.
 
-Fixpoint sdefs (f : sform) : list (var * list var) :=
+(* env gives every defined dummy the value of the disjunction of its members *)
+Definition consistentb (env : var -> bool) (defs : list (var * list var)) : bool :=
+  forallb (fun e : var * list var => Bool.eqb (env (fst e)) (existsb env (snd e))) defs.
+
+(* all the definitions that the groups of a formula can generate *)
+Fixpoint fdefs (f : form) : list (var * list var) :=
   match f with
-  | SNot g => sdefs g
-  | SAnd l => flat_map sdefs l
-  | SOr l => flat_map sdefs l
-  | SImplies a b => sdefs a ++ sdefs b
-  | SEq a b => sdefs a ++ sdefs b
-  | SXor a b => sdefs a ++ sdefs b
-  | SUnique names => unique_defs (List.length names) (map pb_var names)
+  | FNot g => fdefs g
+  | FAnd l => flat_map fdefs l
+  | FOr l => flat_map fdefs l
+  | FUnique vs => unique_defs (List.length vs) vs
   | _ => []
+  end.
+
+(* no unique node *)
+Fixpoint no_unique (f : form) : bool :=
+  match f with
+  | FNot g => no_unique g
+  | FAnd l => forallb no_unique l
+  | FOr l => forallb no_unique l
+  | FUnique _ => false
+  | _ => true
   end.
 
 Fixpoint vars_eqb (a b : list var) : bool :=
@@ -622,7 +660,7 @@ Fixpoint vars_eqb (a b : list var) : bool :=
   end.
 
 (* The dummies of a group are named from the quoted names of its variables
-   (bf.go:347-354).  Two groups with the same list of variables share their
+   (bf.go:374-381).  Two groups with the same list of variables share their
    dummies, with identical definitions: harmless.  [functional_defs]: two
    definitions of the same dummy have the same members.  It always holds
    (Proofs/Bf.v, [clash_free_all]). *)
@@ -635,11 +673,12 @@ Fixpoint functional_defs (defs : list (var * list var)) : bool :=
     && functional_defs rest
   end.
 
-Definition clash_free (f : sform) : bool := functional_defs (sdefs f).
+Definition clash_free (f : sform) : bool := functional_defs (fdefs (desugar f)).
 
-(* Exactly-one groups of more than 4 names occur only positively
-   ([pol] = true: the current position is positive).  Both sides of Eq and
-   Xor, and the left of Implies, occur under a negation (bf.go:297-309). *)
+(* (No theorem needs it any more: since bf.go:177-180 a negated group is
+   translated pairwise.)  Exactly-one groups of more than 4 names occur only
+   positively ([pol] = true: the current position is positive).  Both sides
+   of Eq and Xor, and the left of Implies, occur under a negation (bf.go:301-313). *)
 Fixpoint pos_unique (pol : bool) (f : sform) : bool :=
   match f with
   | SNot g => pos_unique (negb pol) g
